@@ -3,6 +3,8 @@ from __future__ import annotations
 
 import itertools
 import json
+
+import numpy as np
 import os
 import shutil
 import traceback
@@ -77,8 +79,9 @@ def roundtrip_case(args) -> dict:
         try:
             out["cases"] += 1
             meta = Metadata(description=d["text"],
-                            dataset_license=d["text"] or "lic",
-                            dataset_version="2.3.4" if d["text"] else "1.0.0",
+                            # falsy but non-default values included
+                            dataset_license=d["text"],
+                            dataset_version="2.3.4" if d["text"] else "",
                             download_from=d["text"],
                             custom_metadata=json.loads(json.dumps(d["md"])))
             struct = DatasetStructure(
@@ -87,6 +90,7 @@ def roundtrip_case(args) -> dict:
                               custom_metadata=json.loads(json.dumps(
                                   d["amd"]))),
                     Attribute(name="v", dtype="float32", shape=(2,)),
+                    Attribute(name="z", dtype="uint8", shape=()),  # rank 0
                 ],
                 compression=d["compression"],
                 examples_per_shard=d["eps"],
@@ -101,7 +105,8 @@ def roundtrip_case(args) -> dict:
                 with kept.filler() as f:
                     for q in range(3):
                         f.write_example(
-                            values=D.example((0, 0, q)), split="train",
+                            values=dict(D.example((0, 0, q)),
+                                        z=np.uint8(q)), split="train",
                             custom_metadata=json.loads(json.dumps(d["smd"]))
                             if d["smd"] else None)
             except Exception as e:  # pylint: disable=broad-except
